@@ -437,6 +437,12 @@ func main() {
 				docs[i].N["n1"] = v[:1]
 			}
 			names = append(names, sq.DocName(docs[i].ID))
+			// a keyword that is unique per document (its postings lists have exactly one hit)
+			var u sq.Term
+			for x := docs[i].ID; x > 0; x /= 3 {
+				u = append(u, 1+x%3)
+			}
+			docs[i].K["u1"] = []sq.Term{u}
 		}
 		sort.Strings(names)
 		rank := map[string]int{}
@@ -462,6 +468,18 @@ func main() {
 				q = &sq.Q{T: "all"}
 			case 1: // a conjunction of keyword terms (a field without positions)
 				q = &sq.Q{T: "bool", Must: []*sq.Q{{T: "term", F: "f1", V: sq.Vocab[r.Intn(4)]}, {T: "term", F: "f1", V: sq.Vocab[r.Intn(4)]}}}
+			case 3: // conjunctions over fields without positions, terms with a single hit
+				a, bb := sq.Term{1}, sq.Term{2}
+				if len(docs) > 1 {
+					a, bb = docs[r.Intn(len(docs))].K["u1"][0], docs[r.Intn(len(docs))].K["u1"][0]
+				}
+				q = &sq.Q{T: "bool", Must: []*sq.Q{{T: "term", F: "u1", V: a}, {T: "term", F: "u1", V: bb}}}
+			case 4:
+				a := sq.Term{1}
+				if len(docs) > 0 {
+					a = docs[r.Intn(len(docs))].K["u1"][0]
+				}
+				q = &sq.Q{T: "bool", Must: []*sq.Q{{T: "term", F: "u1", V: a}, {T: "term", F: "k1", V: sq.Vocab[r.Intn(4)]}}}
 			case 2:
 				q = &sq.Q{T: "bool", Should: []*sq.Q{{T: "term", F: "f2", V: sq.Vocab[r.Intn(4)]}, {T: "term", F: "f1", V: sq.Vocab[r.Intn(4)]}}, Min: 1}
 			default:
